@@ -28,6 +28,9 @@ theorem typeAttrP_fam (U : Unicode) (text : Bytes) (s : CSt) (h : htmlFamily s.t
   all_goals repeat' split
   all_goals first | exact h | decide
 
+/-- a constant context of the HTML family -/
+macro "hfam" : tactic => `(tactic| first | decide | (dsimp only; decide))
+
 /-- close a `Fam` goal about an explicit state -/
 macro "fam_close" h:ident : tactic =>
   `(tactic| (refine ⟨?_, ?_⟩ <;> (try dsimp only) <;> first | exact ($h).1 | exact ($h).2 | decide | (split <;> decide)))
@@ -44,8 +47,8 @@ theorem caseTagP_fam (U : Unicode) (text : Bytes) (s : CSt) (c : UInt8) (h : Fam
   unfold caseTagP
   split
   · split
-    · exact ⟨h.2, by decide⟩
-    · exact ⟨h.2, by decide⟩
+    · exact ⟨h.2, by hfam⟩
+    · exact ⟨h.2, by hfam⟩
   · split
     · simp only []
       split
@@ -62,7 +65,7 @@ theorem caseAttrP_fam (U : Unicode) (text : Bytes) (s : CSt) (c : UInt8) (h : Fa
   have ht := typeAttrP_fam U text { s with quote := 0 } h.2
   split
   · simp only []
-    split <;> split <;> first | exact ⟨by decide, h.2⟩ | exact ⟨by decide, ht⟩
+    split <;> split <;> first | exact ⟨by hfam, h.2⟩ | exact ⟨by hfam, ht⟩
   · exact h
 
 theorem caseCSSP_fam (text : Bytes) (s : CSt) (c : UInt8) (h : Fam s) : Fam (caseCSSP text s c).1 := by
@@ -79,7 +82,7 @@ theorem caseJSStringP_fam (text : Bytes) (s : CSt) (c : UInt8) (back : Nat) (q :
     (hb : htmlFamily back) : Fam (caseJSStringP text s c back q).1 := by
   unfold caseJSStringP
   repeat' split
-  all_goals first | exact h | exact ⟨hb, h.2⟩ | exact ⟨by decide, h.2⟩
+  all_goals first | exact h | exact ⟨hb, h.2⟩ | exact ⟨by hfam, h.2⟩
 
 theorem caseJSONP_fam (text : Bytes) (s : CSt) (c : UInt8) (h : Fam s) : Fam (caseJSONP text s c).1 := by
   unfold caseJSONP
@@ -96,9 +99,148 @@ theorem ctxSwitchP_fam (U : Unicode) (text : Bytes) (s : CSt) (c : UInt8) (h : F
   · exact caseAttrP_fam U text s c h
   · exact caseCSSP_fam text s c h
   · exact caseJSP_fam text s c h
-  · exact caseJSStringP_fam text s c _ _ h (by decide)
+  · exact caseJSStringP_fam text s c _ _ h (by hfam)
   · exact caseJSONP_fam text s c h
-  · exact caseJSStringP_fam text s c _ _ h (by decide)
+  · exact caseJSStringP_fam text s c _ _ h (by hfam)
   · exact h
+
+/-! ## `switch l.ctx` -/
+
+theorem ctxSwitch_ref {E : Env} {st : St} {lp : Loop} {c : UInt8} (hI : LoopInv E st lp)
+    (hlt : lp.p < srcLen E st) (hc : peek E st lp.p = some c) (hf : htmlFamily st.ctx) :
+    ∃ o, ctxSwitch E FHtml st lp c = .ok o ∧ CaseRef st lp (ctxSwitchP E.U E.text (proj st lp) c) o := by
+  unfold ctxSwitch ctxSwitchP
+  have hctx : (proj st lp).ctx = st.ctx := rfl
+  have hq : (proj st lp).quote = lp.quote := rfl
+  simp only [if_neg hf.not_md, hctx, hq]
+  isplit
+  · rename_i hh
+    isplit
+    · exact caseLT_ref hI hlt hh
+    · exact ⟨_, rfl, rfl, id⟩
+  · isplit
+    · exact caseTag_ref hI hlt hc
+    · isplit
+      · exact caseAttr_ref hI
+      · isplit
+        · exact caseCSS_ref hlt
+        · isplit
+          · exact caseJS_ref hlt
+          · isplit
+            · exact caseJSString_ref _ _ hlt
+            · isplit
+              · exact caseJSON_ref hlt
+              · isplit
+                · exact caseJSString_ref _ _ hlt
+                · exact ⟨_, rfl, rfl, id⟩
+
+/-! ## the tail of an iteration -/
+
+theorem tail_ref {E : Env} (st : St) (lp : Loop) (c : UInt8) (hf : htmlFamily st.ctx) :
+    proj (tail E st lp c).1 (tail E st lp c).2 = tailP E.text (proj st lp) c ∧
+    (tail E st lp c).1.toks = st.toks ∧ (tail E st lp c).2.emittedURL = lp.emittedURL := by
+  unfold tail tailP
+  have hpk : E.text[(proj st lp).pos + 1]? = peek E (newline st) (lp.p + 1) := peek_abs1 E st lp
+  have h1 : ¬ ((newline st).ctx = ContextTabCodeBlock ∨ (newline st).ctx = ContextSpacesCodeBlock) := by
+    intro h
+    rcases h with h | h
+    · exact hf.not_tab h
+    · exact hf.not_spaces h
+  have h2 : ¬ (newline st).ctx = ContextMarkdown := hf.not_md
+  simp only [hpk, peekIs, beq_iff_eq]
+  split
+  · dsimp only
+    refine ⟨?_, ?_, ?_⟩
+    rotate_left
+    · first | rfl | trivial
+    · first | rfl | trivial
+    split
+    · proj_eq
+    · proj_eq
+  · split
+    · exact ⟨by proj_eq, rfl, rfl⟩
+    · exact ⟨by proj_eq, rfl, rfl⟩
+
+/-! ## no delimiter at the current position -/
+
+theorem delimAt_false {text : Bytes} {i : Nat} {c : UInt8} (h : delimAt text i = false) (hc : text[i]? = some c) :
+    ¬ (c = 0x7b ∧ text[i + 1]? = some 0x7b) ∧ ¬ (c = 0x7b ∧ text[i + 1]? = some 0x25) ∧
+    ¬ (c = 0x7b ∧ text[i + 1]? = some 0x23) ∧ ¬ (c = 0x23 ∧ text[i + 1]? = some 0x7d) := by
+  unfold delimAt at h
+  rw [hc] at h
+  refine ⟨?_, ?_, ?_, ?_⟩ <;> rintro ⟨rfl, hd⟩ <;> rw [hd] at h <;> simp at h
+
+/-! ## one iteration -/
+
+/-- One iteration of the main loop of the full model, at a position where no delimiter starts and
+in a context of the HTML family, is `cstep` on the projection. -/
+theorem step_refines {E : Env} {st : St} {lp : Loop} (hI : LoopInv E st lp) (hlt : lp.p < srcLen E st)
+    (hf : htmlFamily st.ctx) (hft : htmlFamily st.tagCtx) (hd : delimAt E.text (st.base + lp.p) = false) :
+    ∃ st' lp', step E FHtml st lp = .ok (.cont st' lp') ∧ proj st' lp' = cstep E.U E.text (proj st lp) ∧
+      LoopInv E st' lp' ∧ Ext E st st' ∧ mu E st' lp' < mu E st lp ∧ htmlFamily st'.ctx ∧ htmlFamily st'.tagCtx ∧
+      (TokInv st.toks lp.emittedURL → TokInv st'.toks lp'.emittedURL) := by
+  -- the value
+  have hval : ∃ st' lp', step E FHtml st lp = .ok (.cont st' lp') ∧ proj st' lp' = cstep E.U E.text (proj st lp) ∧
+      (TokInv st.toks lp.emittedURL → TokInv st'.toks lp'.emittedURL) := by
+    obtain ⟨c, hc, hpk⟩ := srcAt_ok_of_lt hlt
+    have hcabs : E.text[(proj st lp).pos]? = some c := hpk
+    have hm := hf.not_md
+    have hdel := delimAt_false hd hpk
+    unfold step cstep
+    simp only [hc, bind_ok, hm, false_and, if_false, hcabs]
+    -- the byte after the current one
+    have hdd : (if lp.p + 1 < srcLen E st then peek E st (lp.p + 1) else none) = E.text[st.base + lp.p + 1]? := by
+      split
+      · unfold peek; rw [Nat.add_assoc]
+      · rename_i hge
+        symm
+        apply List.getElem?_eq_none
+        have := hI.base_le
+        unfold srcLen at hge; omega
+    rw [hdd]
+    have n1 : ¬ (c = 0x7b ∧ E.text[st.base + lp.p + 1]? = some 0x7b ∧ (!E.noParseShow) = true) :=
+      fun h => hdel.1 ⟨h.1, h.2.1⟩
+    simp only [if_neg n1, if_neg hdel.2.1, if_neg hdel.2.2.1, if_neg hdel.2.2.2]
+    obtain ⟨o, ho, href⟩ := ctxSwitch_ref hI hlt hpk hf
+    simp only [ho, bind_ok]
+    cases o with
+    | next st' lp' =>
+      obtain ⟨hr, htok⟩ := href
+      simp only [pure_eq_ok]
+      refine ⟨st', lp', rfl, ?_, htok⟩
+      rw [hr]
+    | fall st' lp' =>
+      obtain ⟨hr, htok⟩ := href
+      have hfam : Fam (proj st' lp') := by
+        have := ctxSwitchP_fam E.U E.text (proj st lp) c ⟨hf, hft⟩
+        rw [hr] at this; exact this
+      obtain ⟨t1, t2, t3⟩ := tail_ref (E := E) st' lp' c hfam.1
+      simp only [pure_eq_ok]
+      refine ⟨_, _, rfl, ?_, ?_⟩
+      · rw [hr]; exact t1
+      · rw [t2, t3]; exact htok
+  obtain ⟨st', lp', hs, hp, htok⟩ := hval
+  obtain ⟨o, ho, hg⟩ := step_ok (codeSpec E) (F := FHtml) hI hlt
+  rw [hs] at ho
+  cases ho
+  obtain ⟨hI', hext, hmu⟩ := hg
+  have hfam : Fam (proj st' lp') := by
+    rw [hp]
+    unfold cstep
+    have hcabs : E.text[(proj st lp).pos]? ≠ none := by
+      obtain ⟨c, _, hpk⟩ := srcAt_ok_of_lt hlt
+      intro h
+      rw [show E.text[(proj st lp).pos]? = some c from hpk] at h
+      cases h
+    split
+    · rename_i h; exact (hcabs h).elim
+    · rename_i c _
+      have := ctxSwitchP_fam E.U E.text (proj st lp) c ⟨hf, hft⟩
+      split
+      · rename_i s' h2; rw [h2] at this; exact this
+      · rename_i s' h2; rw [h2] at this
+        unfold tailP
+        split <;> exact this
+  exact ⟨st', lp', hs, hp, hI', hext, hmu, hfam.1, hfam.2, htok⟩
 
 end ScriggoV.LexCtx
